@@ -11,7 +11,13 @@ import (
 )
 
 func runFldOps(spec *Sx, ops []*Sx) []string {
-	f := buildField(spec)
+	out, _ := runFldOpsOn(spec, buildField(spec), ops)
+	return out
+}
+
+// runFldOpsOn performs the operations of a field case on the object given and returns the object as it is at the end
+// (a reset replaces it): the oracles look at it afterwards
+func runFldOpsOn(spec *Sx, f field.Field, ops []*Sx) ([]string, field.Field) {
 	var out []string
 	for _, op := range ops {
 		switch op.Head() {
@@ -70,7 +76,7 @@ func runFldOps(spec *Sx, ops []*Sx) []string {
 			}
 		}
 	}
-	return out
+	return out, f
 }
 
 // renderJdoc prints a parsed-document term as JSON text: (js x..) (jn z) (jo ((xkey doc)...))
